@@ -1,5 +1,207 @@
+//! Scenario `queue`: posters (and tasks) call post / abort on one NewThreadScheduler.  Rendered as the
+//! label trace of the Lean LTS `Rx.Queue` (lean/RxVerif/Conc/Queue.lean) for co-simulation, plus the
+//! task start / end stamps for the C08 oracle.
+//!   (queue (poster (post 1) (post 2) abort) (poster (post 3)) (body 1 (post 10)))
 use crate::sexp::Sexp;
-use crate::Scenario;
-pub fn build(_a: &[Sexp]) -> Option<Box<dyn Scenario>> {
-  None
+use crate::{Outcome, Scenario};
+use another_rxrust::prelude::*;
+use another_rxrust::schedulers::scheduler::IScheduler;
+use another_rxrust::verif_facade as facade;
+use std::collections::HashMap;
+use std::sync::Arc;
+
+#[derive(Clone, Debug)]
+enum Call {
+  Post(usize),
+  Abort,
+}
+
+pub struct QueueSc {
+  posters: Vec<Vec<Call>>,
+  bodies: HashMap<usize, Vec<Call>>,
+  text: String,
+}
+
+fn parse_calls(a: &[Sexp]) -> Option<Vec<Call>> {
+  a.iter()
+    .map(|c| {
+      if c.atom() == Some("abort") {
+        Some(Call::Abort)
+      } else {
+        let (h, x) = c.call()?;
+        if h == "post" {
+          Some(Call::Post(x.first()?.nat()?))
+        } else {
+          None
+        }
+      }
+    })
+    .collect()
+}
+
+fn calls_text(cs: &[Call]) -> String {
+  cs.iter().map(|c| match c { Call::Post(t) => format!("post {}", t), Call::Abort => "abort".to_string() }).collect::<Vec<_>>().join("; ")
+}
+
+pub fn build(a: &[Sexp]) -> Option<Box<dyn Scenario>> {
+  let mut posters = Vec::new();
+  let mut bodies = HashMap::new();
+  for x in a {
+    let (h, rest) = x.call()?;
+    match h {
+      "poster" => posters.push(parse_calls(rest)?),
+      "body" => {
+        bodies.insert(rest.first()?.nat()?, parse_calls(&rest[1..])?);
+      }
+      _ => return None,
+    }
+  }
+  let mut text = posters.iter().map(|p| format!("P:{}", calls_text(p))).collect::<Vec<_>>();
+  let mut ks: Vec<_> = bodies.keys().copied().collect();
+  ks.sort();
+  for k in ks {
+    text.push(format!("B{}:{}", k, calls_text(&bodies[&k])));
+  }
+  Some(Box::new(QueueSc { posters, bodies, text: text.join(" / ") }))
+}
+
+fn h(text: String) {
+  facade::log("h", 0, "", text);
+}
+
+fn run_calls(sched: &schedulers::NewThreadScheduler<'static>, calls: &[Call], bodies: &Arc<HashMap<usize, Vec<Call>>>) {
+  for c in calls {
+    match c {
+      Call::Post(t) => {
+        let t = *t;
+        let s2 = sched.clone();
+        let b2 = bodies.clone();
+        h("callStart".into());
+        sched.post(move || {
+          h(format!("taskStart {}", t));
+          let empty = Vec::new();
+          let body = b2.get(&t).unwrap_or(&empty).clone();
+          run_calls(&s2, &body, &b2);
+          h(format!("taskEnd {}", t));
+        });
+        h("callRet".into());
+      }
+      Call::Abort => {
+        h("callStart".into());
+        sched.abort();
+        h("callRet".into());
+      }
+    }
+  }
+}
+
+impl Scenario for QueueSc {
+  fn body(&self) -> Arc<dyn Fn() + Send + Sync> {
+    let posters = self.posters.clone();
+    let bodies = Arc::new(self.bodies.clone());
+    Arc::new(move || {
+      // the scheduler is created first: its worker is the first thread spawned through the facade
+      let sched = schedulers::NewThreadScheduler::new();
+      let mut hs = Vec::new();
+      for (i, p) in posters.iter().enumerate() {
+        let p = p.clone();
+        let sched = sched.clone();
+        let bodies = bodies.clone();
+        hs.push(shuttle::thread::spawn(move || {
+          h(format!("poster {}", i + 1));
+          run_calls(&sched, &p, &bodies);
+        }));
+      }
+      for t in hs {
+        let _ = t.join();
+      }
+    })
+  }
+
+  fn render(&self, out: &Outcome) -> String {
+    // thread roles: worker = the thread that logged the facade "start" first; posters by their stamp
+    let mut worker: Option<usize> = None;
+    let mut poster: HashMap<usize, usize> = HashMap::new();
+    for e in out.events.iter() {
+      if e.kind == "start" && worker.is_none() {
+        worker = Some(e.tid);
+      }
+      if e.kind == "h" {
+        if let Some(n) = e.payload.strip_prefix("poster ") {
+          poster.insert(e.tid, n.parse().unwrap_or(0));
+        }
+      }
+    }
+    let mut labels: Vec<String> = Vec::new();
+    let mut stamps: Vec<String> = Vec::new();
+    let mut abort_set = false;
+    // per thread: what the current call is, and whether the worker's `wait_while` condition just returned false
+    let mut in_post: HashMap<usize, bool> = HashMap::new();
+    let mut after_cond_f = false;
+    let mut worker_exit_logged = false;
+    for e in out.events.iter() {
+      let tid = if Some(e.tid) == worker {
+        0
+      } else if let Some(p) = poster.get(&e.tid) {
+        *p
+      } else {
+        continue;
+      };
+      let is_queue = e.site.starts_with("async_function_queue:");
+      match e.kind {
+        "h" => {
+          if e.payload == "callStart" || e.payload == "callRet" {
+            labels.push(format!("{} {}", tid, e.payload));
+          } else if e.payload.starts_with("taskStart") || e.payload.starts_with("taskEnd") {
+            labels.push(format!("{} {}", tid, e.payload.split(' ').next().unwrap_or("")));
+            stamps.push(format!("{}:{}", e.tid, e.payload.replace(' ', "")));
+          }
+        }
+        "lock" if is_queue => {
+          labels.push(format!("{} lock", tid));
+          in_post.insert(tid, true); // refined below when an abortWrite shows this is `stop`
+        }
+        "unlock" if is_queue => labels.push(format!("{} unlock", tid)),
+        "acq_w" if is_queue => {
+          // stop(): clear, then the abort write
+          labels.push(format!("{} clear", tid));
+          labels.push(format!("{} abortWrite", tid));
+          abort_set = true;
+          in_post.insert(tid, false);
+        }
+        "acq_r" if is_queue => {
+          labels.push(format!("{} abortRead", tid));
+          if after_cond_f && tid == 0 {
+            // line 43: `if abort { None } else { pop_front() }`
+            if !abort_set {
+              labels.push("0 pop".to_string());
+            }
+            after_cond_f = false;
+          }
+        }
+        "cond" if is_queue => {
+          after_cond_f = e.payload == "F";
+        }
+        "wait" if is_queue => labels.push(format!("{} wait", tid)),
+        "woken" if is_queue => {
+          labels.push(format!("{} wake", tid));
+          labels.push(format!("{} lock", tid));
+        }
+        "notify" if is_queue => {
+          if in_post.get(&tid).copied().unwrap_or(true) {
+            labels.push(format!("{} push", tid));
+          }
+          labels.push(format!("{} notify", tid));
+        }
+        "exit" => {
+          if tid == 0 && !worker_exit_logged {
+            labels.push("0 exit".to_string());
+            worker_exit_logged = true;
+          }
+        }
+        _ => {}
+      }
+    }
+    format!("cfg={} ; {} ; {}", self.text, stamps.join(" "), labels.join(";"))
+  }
 }
